@@ -313,6 +313,12 @@ class CallMixin:
             cname = c.name
         if cname is None:
             raise Unsupported('isinstance with symbolic class')
+        if isinstance(v, VRef) and isinstance(v.typ, ty.TRef) and v.typ.cls in self.prog.classes:
+            # heap typing: the dynamic class is a subclass of the declared one
+            if cname in self.prog.classes and self.prog.is_subclass(v.typ.cls, cname):
+                return v.term != 0 if v.nullable else z3.BoolVal(True)
+            if cname not in self.prog.classes and cname != 'object':
+                return z3.BoolVal(False)
         if isinstance(v, VRef) and (isinstance(v.typ, ty.TRef) or v.typ == ty.ANY):
             return z3.And(v.term != 0, self.subclass_term(self.class_of(v), cname))
         tv = self.type_of_value(v)
